@@ -13,6 +13,8 @@ package storage
 //@ ghost var $newGraphCalls Int
 //@ ghost var $deleteGraphCalls Int
 //@ ghost var $graphLookups Int
+// $delivered: the number of triples the full listings (Graph.Triples) have sent so far.
+//@ ghost var $delivered Int
 
 //@ props C05 C15 C19 C20 C04
 //@ func (this Graph) AddTriples
@@ -150,7 +152,8 @@ package storage
 //@ func (this Graph) Triples
 //@   nobody
 //@   requires trpls != nil && trpls.#closed == 0
-//@   modifies $driverFailed, trpls.#out, trpls.#closed
+//@   modifies $driverFailed, $delivered, trpls.#out, trpls.#closed
+//@   ghostdef $delivered == old($delivered) + (trpls.#len - old(trpls.#len))
 //@   ghostdef result != nil ==> $driverFailed
 //@   ghostdef result == nil ==> $driverFailed == old($driverFailed)
 //@   ensures[closes-the-channel] trpls.#closed == 1 && trpls.#len >= old(trpls.#len)
